@@ -27,6 +27,12 @@ type stream struct {
 	readOff  int
 	sink     bool // never delivered to a reader, only logged
 	waitN    int  // WaitIncoming: number of logged writes waited for
+	stallAt  int  // >=0: the write that would pass this offset blocks until either side closes (a peer that stopped reading)
+}
+
+// stalled: a write of n bytes cannot proceed (flow control: the peer does not read)
+func (s *stream) stalled(n int) bool {
+	return s.stallAt >= 0 && s.total+n > s.stallAt && !s.wclosed && !s.rclosed
 }
 
 func (s *stream) readable() bool {
@@ -61,8 +67,8 @@ func Pipe(nameA, nameB string) (*End, *End) {
 		a, b := net.Pipe()
 		return &End{name: nameA, real: a}, &End{name: nameB, real: b}
 	}
-	ab := &stream{id: ex.newObj(), cutAt: -1, failAt: -1}
-	ba := &stream{id: ex.newObj(), cutAt: -1, failAt: -1}
+	ab := &stream{id: ex.newObj(), cutAt: -1, failAt: -1, stallAt: -1}
+	ba := &stream{id: ex.newObj(), cutAt: -1, failAt: -1, stallAt: -1}
 	return &End{name: nameA, rd: ba, wr: ab}, &End{name: nameB, rd: ab, wr: ba}
 }
 
@@ -117,7 +123,7 @@ func (c *End) Write(p []byte) (int, error) {
 	if e == nil || e.dead {
 		return 0, ErrClosed
 	}
-	e.point(op{kind: KWrite, st: c.wr})
+	e.point(op{kind: KWrite, st: c.wr, wn: len(p)})
 	s := c.wr
 	if s.wclosed {
 		return 0, ErrClosed
@@ -239,6 +245,10 @@ func (c *End) CutIncomingAt(n int) {
 
 // FailOutgoingAt makes the write that would pass stream offset n fail.
 func (c *End) FailOutgoingAt(n int) { c.wr.failAt = n }
+
+// StallOutgoingAt makes the write that would pass stream offset n block (as on a
+// connection whose peer stopped reading) until this end or the peer closes.
+func (c *End) StallOutgoingAt(n int) { c.wr.stallAt = n }
 
 // Inject appends bytes to this end's outgoing stream without a scheduling point
 // (used by drivers that already hold the baton at a point of their own).
